@@ -6,6 +6,7 @@ package main
 import (
 	"bytes"
 	"fmt"
+	"io"
 	"io/fs"
 	"net"
 	"os"
@@ -131,6 +132,23 @@ func init() {
 				}
 				return b
 			}()}, false},
+			{"chunks-again-after-the-completion-report", [][]byte{ctl(0x1210, body1210("JS", r, []aFile{{[]byte("late"), make([]byte, 20)}})), ctl(0x1211, body1211([]byte("late"), 0, 20)),
+				chunkBytes("JS", []byte("late"), 0, make([]byte, 20)), ctl(0x1212, body1211([]byte("late"), 0, 20)), chunkBytes("JS", []byte("late"), 0, make([]byte, 20)),
+				chunkBytes("JS", []byte("late"), 5, make([]byte, 3)), ctl(0x1212, body1211([]byte("late"), 0, 20))}, false},
+			{"every-file-type-byte-with-and-without-an-extension", func() [][]byte {
+				var u [][]byte
+				var fs []aFile
+				for _, ft := range []int{0, 1, 4, 5, 6, 127, 128, 255} {
+					fs = append(fs, aFile{[]byte(fmt.Sprintf("noext%d", ft)), []byte{1, 2}}, aFile{[]byte(fmt.Sprintf("ext%d.bin", ft)), []byte{3}})
+				}
+				u = append(u, ctl(0x1210, body1210("JS", r, fs)))
+				for i, ft := range []int{0, 1, 4, 5, 6, 127, 128, 255} {
+					for _, f := range fs[2*i : 2*i+2] {
+						u = append(u, ctl(0x1211, body1211(f.name, byte(ft), len(f.content))), chunkBytes("JS", f.name, 0, f.content), ctl(0x1212, body1211(f.name, byte(ft), len(f.content))))
+					}
+				}
+				return u
+			}(), false},
 			{"name-with-dotdot", [][]byte{ctl(0x1210, body1210("JS", r, []aFile{{[]byte("../../escape"), []byte{1}}})), ctl(0x1211, body1211([]byte("../../escape"), 0, 1)), chunkBytes("JS", []byte("../../escape"), 0, []byte{7}), ctl(0x1212, body1211([]byte("../../escape"), 0, 1))}, false},
 		}
 		for i, h := range hostile {
@@ -145,6 +163,10 @@ func init() {
 				}
 				if !fast {
 					time.Sleep(5 * time.Millisecond)
+				}
+				if !h.reset && !fast { // read what the server answered, so that the close is an orderly end of the session and not a reset
+					c.SetReadDeadline(time.Now().Add(40 * time.Millisecond))
+					io.Copy(io.Discard, c)
 				}
 				if h.reset {
 					c.(*net.TCPConn).SetLinger(0)
